@@ -13,11 +13,13 @@ CLAIMS = {
               "before the hash map is written) followed by a re-run leaves index and files in agreement with every note "
               "carrying its ZID; the window after the hash-map write is REFUTED by a witness (known finding). On every run "
               "the real commands are killed (os._exit in a child process) right before EVERY external effect - exhaustive "
-              "over crash points - re-run, and judged: exit 0, every note has a ZID, index == recompiled files, no duplicate "
-              "ZID, no user text lost."),
+              "over crash points (file opens for writing, removes, renames, commits) - re-run, and judged: exit 0, every note has a "
+              "ZID, index == recompiled files, no duplicate ZID, no user text lost, files and index equal to those of the "
+              "uninterrupted run (ZID suffixes blanked)."),
         note=("The machine abstracts compilation, SHA-256 and SQL; SQLite durability and atomic file writes are assumed; "
               "real crash points are finer than the model's (commits inside remove_file_by_name). Known findings: the "
-              "window after the hash-map write; the stamp-commit-before-write-back window."),
+              "window after the hash-map write; the stamp-commit-before-write-back window; commits inside remove_file_by_name "
+              "(partial removal made durable)."),
         technique="Rocq proof (crash-state invariant on an effect-ordering model) + exhaustive real kill-and-rerun at every effect boundary",
         design="§5 C13"),
     "C06": dict(
@@ -34,14 +36,20 @@ CLAIMS = {
         technique="Rocq proof (invariant by induction over operation histories on an abstract world machine) + step-wise observational correspondence + fresh-rebuild spec check",
         design="§5 C06"),
     "C05": dict(
-        text=("Rocq proof, on abstract items of any length (C05_zid_written_into_item): writing the ZID into the canonical "
+        text=("Rocq proof at PAGE level (C05_zids_written_into_page, C05_rewritten_page_notes): for every abstract page and every "
+              "choice of a ZID per line, _update_zo_file with _add_zid_to_line, handed the (line, ZID) pairs of the ZID-less notes "
+              "the page compiles to, rewrites the page's canonical text into the canonical text of the same page with each ZID in "
+              "identity position - every other line and word untouched - and the rewritten page has the same notes on the same "
+              "lines, each with its old ZID or the chosen one; tied to the code by running the real `db create` on generated "
+              "abstract pages whenever the theorem's decidable hypotheses hold. On abstract items of any length (C05_zid_written_into_item): writing the ZID into the canonical "
               "text of a ZID-less item yields the canonical text of the item whose identity is that ZID, and "
               "(C05_index_body_is_file_body) the body the index stores is the body of the note the rewritten line compiles to "
               "(with the page theorem of C01: the rewritten page compiles to the same notes, now with their ZIDs). Line level: "
               "for items whose words are separated by single spaces the "
               "rewritten first line is 'prefix + ZID + rest' (after kind, after kind+priority, in place of a leading long "
               "date), the body the index stores equals the rest of the rewritten line, and _update_zo_file changes only the "
-              "listed first lines (length and all other lines preserved); irregular spacing is REFUTED (known finding). "
+              "listed first lines (length and all other lines preserved); irregular spacing and a ZID-less item that starts with a "
+              "modify date are REFUTED (known findings). "
               "Allocation order uses the proved ZID model (C07). On every run: `db create` on generated directories, files "
               "and next_ids.json byte-for-byte against the model, and on the implementation alone: all notes carry ZIDs, "
               "recompiled = indexed on every field incl. section path and block, only-ZID diffs, repeated create/reindex change nothing."),
@@ -50,7 +58,10 @@ CLAIMS = {
         technique="Rocq proof (line-rewriting lemmas via split/join round trip) + byte-exact correspondence + recompile-vs-index spec check",
         design="§5 C05"),
     "C11": dict(
-        text=("Rocq proof, on abstract items (C11_date_written_into_item): stamping rewrites the canonical text of an item "
+        text=("Rocq proof at PAGE level (C11_dates_written_into_page): for every abstract page, date and set of lines, "
+              "_update_zo_file with _add_or_update_modify_date rewrites the page's canonical text into that of the same page with "
+              "the date in front of the ZID of exactly the items on those lines; tied to the code by the real `db reindex` on "
+              "edited abstract pages. On abstract items (C11_date_written_into_item): stamping rewrites the canonical text of an item "
               "into that of the same item with identity 'modify date + ZID' (inserted or replaced), nothing else changes. "
               "Over the model of _check_for_modified_notes / _add_or_update_modify_date: a note is stamped IFF it "
               "had that ZID in the previous index state, its body or todo state differs, and it is not dated today; a note "
@@ -97,7 +108,8 @@ CLAIMS = {
         text=("Rocq proof over the line-level model of FileManager.add_note/delete_note: deletion removes exactly "
               "len(body lines) lines starting at the FIRST line containing ' ZID ' and keeps every other line in order; "
               "insertion replaces exactly one line, which is blank whenever the page ends with a newline (induction on the "
-              "scan); both deviations of the full statement (ZID mentioned earlier, no trailing newline) are REFUTED by "
+              "scan), and (C10_added_below_the_last_item_paragraph) for EVERY page the note is written directly below the last "
+              "paragraph that holds an item, the blank line after it, all other lines unchanged; both deviations of the full statement (ZID mentioned earlier, no trailing newline) are REFUTED by "
               "witnesses (known findings). Tied to the code by running the real note_utils.move_note on copies of indexed "
               "directories for sampled (note, destination, marker) triples and comparing exit code and both files "
               "byte-for-byte with the model (hidden metadata, text form, add, delete), plus spec clauses on the result."),
@@ -119,7 +131,8 @@ CLAIMS = {
         design="§5 C09"),
     "C01": dict(
         text=("Rocq proof, END-TO-END ON THE LISTENER: for every abstract well-formed page (sections nested H1>H2>H3>H4 and H2 "
-              "before the first H1, any number of blocks and items, every kind / priority / identity form, any number of words "
+              "before the first H1, any number of blocks and items, every kind / priority / identity form (none, ZID, modify date + "
+              "ZID, long creation date, modify date alone), any number of words "
               "of every modelled form incl. look-alike identifiers, digit-only tags, dates, ZIDs) the handler-by-handler model of "
               "ZorgFileCompiler, run on tree_of_page, returns an unflagged page whose notes are exactly spec_page in document "
               "order, each with its kind, priority, ZID, dates, body, line and metadata in scope "
@@ -182,8 +195,10 @@ CLAIMS = {
         text=("Rocq proof over the model of run_action_open/_open_link (messages are an inductive with exactly EDIT, "
               "SEARCH, PROMPT, ECHO): several targets are offered in line order by one PROMPT, a single target is opened "
               "directly, option k (and -1) opens the k-th (last) target, and a line consisting of one link-like target or "
-              "one ZID offers exactly that target; the clause about non-primary ZIDs is refuted by a witness (known "
-              "finding). Tied to the code by running the real `zorg action open` on generated lines in .zo and .zoq "
+              "one ZID offers exactly that target; (C17_targets_of_an_item_line) on an item line - kind, any identity prefix, an "
+              "ordinary word, then anything - the targets are exactly the link-like words and the ZIDs after that word, in "
+              "order, and on query pages every ZID is a target; without the ordinary word the clause about non-primary ZIDs "
+              "is refuted by a witness (known finding). Tied to the code by running the real `zorg action open` on generated lines in .zo and .zoq "
               "pages of an indexed directory, for every option index, against the model and an independent spec scan."),
         note=("Partial: target resolution against the index is modelled from the ID/RID/ZID rows the harness wrote "
               "(SQL lookups are not modelled); subprocess targets and query-line refresh are out of model."),
